@@ -116,7 +116,7 @@ func checkC17(e *RunEnv) *CheckResult {
 	seedFiles = append(seedFiles, Write("build/copy-of-a", v1("a")), Write("copy-of-a.log", v1("a")))
 	spec := &Spec{
 		Seeds: []Seed{{"S0+files", seedFiles}, {"S0+files+ignore", append(append([]Step{}, seedFiles...), Write(".goitignore", "build/\n*.log\n"))}},
-		Depth: e.depth(4, 5),
+		Depth: e.depth(4, 6),
 		Steps: func(n *Node) []Step {
 			a := n.Abs()
 			st := stateTags(a)
